@@ -16,6 +16,7 @@ import (
 	"sync/atomic"
 	"time"
 
+	extv1 "k8s.io/apiextensions-apiserver/pkg/apis/apiextensions/v1"
 	kerrors "k8s.io/apimachinery/pkg/api/errors"
 	kunstructured "k8s.io/apimachinery/pkg/apis/meta/v1/unstructured"
 	"k8s.io/apimachinery/pkg/runtime"
@@ -477,6 +478,9 @@ var theScheme = func() *runtime.Scheme {
 	if err := v1.SchemeBuilder.AddToScheme(s); err != nil {
 		panic(err)
 	}
+	if err := extv1.AddToScheme(s); err != nil {
+		panic(err)
+	}
 	return s
 }()
 
@@ -577,4 +581,29 @@ func (w *world) probe() []probedReg {
 		out = append(out, p)
 	}
 	return out
+}
+
+// crdDeleted delivers the deletion of the CRD that defines gvk's kind (with versions vs) to every
+// handler registered on the CustomResourceDefinition informer - the engine's custom-resource
+// informer garbage collector is one. It returns the number of handlers called.
+func (f *fakeCache) crdDeleted(gvk gvkT, vs ...string) int {
+	crd := &extv1.CustomResourceDefinition{}
+	crd.SetName(strings.ToLower(gvk.Kind) + "s." + gvk.Group)
+	crd.Spec.Group = gvk.Group
+	crd.Spec.Names.Kind = gvk.Kind
+	for _, v := range vs {
+		crd.Spec.Versions = append(crd.Spec.Versions, extv1.CustomResourceDefinitionVersion{Name: v, Served: true})
+	}
+	f.mu.Lock()
+	var hs []toolscache.ResourceEventHandler
+	for _, r := range f.regs {
+		if r.inf.gvk.Kind == "CustomResourceDefinition" && !r.removed && !r.inf.stopped {
+			hs = append(hs, r.h)
+		}
+	}
+	f.mu.Unlock()
+	for _, h := range hs {
+		h.OnDelete(crd)
+	}
+	return len(hs)
 }
